@@ -4,6 +4,7 @@ use pdbtbx::*;
 
 pub const ATOM_NAMES: &[&str] = &["N", "CA", "C", "O", "CB", "CG", "OXT", "H", "HA", "SG", "ZN", "FE", "OD1", "X1"];
 pub const RES_NAMES: &[&str] = &["ALA", "GLY", "CYS", "HOH", "MSE", "SER", "LIG", "VAL"];
+pub const ICODES: &[Option<&str>] = &[None, Some("A"), Some("B"), Some("C")];
 pub const CHAIN_IDS: &[&str] = &["A", "B", "C", "a", "X", "1"];
 
 #[derive(Clone)]
@@ -91,8 +92,27 @@ pub fn structure(rng: &mut Rng, sh: &Shape) -> PDB {
             let chain_id = CHAIN_IDS[ci % CHAIN_IDS.len()];
             let n_res = 1 + r.below(sh.max_residues);
             let mut num: isize = if sh.negative_numbers && r.chance(1, 4) { -(r.below(5) as isize) } else { 1 + r.below(20) as isize };
+            // the insertion code of the residue before, as an index into ICODES (0 = none)
+            let mut prev_ic: Option<usize> = None;
+            let mut prev_num: isize = 0;
             for _ in 0..n_res {
-                let icode = if sh.icodes && r.chance(1, 6) { Some("A") } else { None };
+                // sometimes the number of the residue before is kept and only the insertion code moves on (52, 52A, 52B)
+                let ic_index = match prev_ic {
+                    Some(k) if sh.icodes && k + 1 < ICODES.len() && r.chance(1, 5) => {
+                        num = prev_num;
+                        k + 1
+                    }
+                    _ => {
+                        if sh.icodes && r.chance(1, 6) {
+                            1
+                        } else {
+                            0
+                        }
+                    }
+                };
+                prev_ic = Some(ic_index);
+                prev_num = num;
+                let icode = ICODES[ic_index];
                 let rname = *r.pick(RES_NAMES);
                 let n_alt = if r.chance(1, 4) { 1 + r.below(sh.max_altlocs) } else { 0 };
                 let n_atoms = 1 + r.below(sh.max_atoms);
